@@ -69,4 +69,14 @@ PROPS = {
                  "verif hook VerifSetClock installs the virtual clock"],
         assumptions=["clock readings are non-decreasing", "ExpiresIn*rate >= burst (as the property states)"],
     ),
+    "C19": dict(
+        n_quick=400, n_thorough=15000, incoq=40,
+        level_text="Theorems C19_* (Props/C19.v): for every balancer state (hence every history of Add/Remove/Next) the index Next returns is within the current target list and names a current member; Add/Remove keep names unique, an added target stays, a removed one is gone; round-robin over a fixed list visits it cyclically; the retry loop makes at most RetryCount+1 attempts, relays from exactly one alive target after failed attempts only, and answers 502 only if every attempt failed. Model compared with the real ProxyWithConfig + round-robin balancer over live/dead upstream servers; forwarding fidelity is checked differentially by the implementation-only predicate.",
+        technique="Coq proofs over the balancer state machine and the retry loop (induction on retries) + differential correspondence over real upstream servers",
+        trusted=["httputil.ReverseProxy, net/http transport and sockets (byte-faithful relaying is observed differentially, not proved)",
+                 "every balancer operation is one atomic step (commonBalancer.mutex); goroutine interleavings are sequences of these steps (partial: Go memory model not modelled)",
+                 "an attempt's outcome is an oracle (alive/dead per target name)"],
+        assumptions=["Next on an empty balancer returns nil and the proxy dereferences it: requests with zero targets are outside the property (generator keeps >= 1 target)",
+                     "rewrite rules and the random balancer are not modelled"],
+    ),
 }
